@@ -359,6 +359,9 @@ class Translator:
             else:
                 raise Untranslatable("membership in " + lean_type(tb))
             return ("(!%s)" % r if neg else r), BOOL
+        if isinstance(op, (ast.Is, ast.IsNot)) and ast.unparse(left) == "asyncio.current_task()" and ast.unparse(right) == "self._task" \
+                and "own_task" in c.env:
+            return ("(!own_task)" if isinstance(op, ast.IsNot) else "own_task"), BOOL
         if isinstance(op, (ast.Is, ast.IsNot)) and isinstance(right, ast.Constant) and isinstance(right.value, bool):
             a, ta = self.ex(left, c, binds)
             if ta == VAL:
@@ -849,7 +852,7 @@ class Translator:
                             and getattr(self.fns.get(c.env[x.func.value.id][1] + "." + x.func.attr), "mutating", False):
                         add(x.func.value.id)
                     if isinstance(x, ast.Call) and isinstance(x.func, ast.Attribute) and isinstance(x.func.value, ast.Attribute) \
-                            and isinstance(x.func.value.value, ast.Name) and x.func.attr in ("extend", "clear", "write", "pop", "reset"):
+                            and isinstance(x.func.value.value, ast.Name) and x.func.attr in ("extend", "clear", "write", "pop", "reset", "cancel"):
                         add(x.func.value.value.id)
                     if isinstance(x, ast.Call) and isinstance(x.func, ast.Name) and x.func.id == "next" and x.args \
                             and isinstance(x.args[0], ast.Attribute) and isinstance(x.args[0].value, ast.Name):
@@ -950,6 +953,9 @@ class Translator:
                 if ft and ft[0] == BYTES and f.attr == "extend" and len(call.args) == 1:
                     binds, e, t = self.expr(call.args[0], c, BYTES)
                     return self.wrap(binds, "let %s := { %s with %s := %s.%s ++ %s }\n%s" % (obj, obj, fld, obj, fld, e, cont(c)))
+                if ft and ft[0] == T_opt(T_rec("Task")) and f.attr == "cancel" and not call.args:
+                    # Task.cancel(): the request is recorded on the task object (delivery is asyncio's business)
+                    return "let %s := { %s with %s := (%s.%s).map (fun t => { t with cancel_requested := true }) }\n%s" % (obj, obj, fld, obj, fld, cont(c))
                 if ft and ft[0] == BYTES and f.attr == "clear" and not call.args:
                     return "let %s := { %s with %s := [] }\n%s" % (obj, obj, fld, cont(c))
                 if ft and ft[0] == T_rec("Writer") and f.attr == "write" and len(call.args) == 1:
@@ -1100,6 +1106,11 @@ class Translator:
             c2 = c.copy()
             thn = self.block(list(s.body), c2, cont)
             return self.wrap(binds, "if %s then\n%s\nelse\n%s" % (cond, ind(thn), ind(self.block(s.orelse, c.copy(), None))))
+        # a branch that returns / raises on some paths and falls through on others: no join, the continuation is duplicated
+        if any(isinstance(x, (ast.Return, ast.Raise)) for br in (s.body, s.orelse) for st in br for x in ast.walk(st)):
+            thn = self.block(list(s.body), c.copy(), cont)
+            els = self.block(list(s.orelse), c.copy(), cont)
+            return self.wrap(binds, "if %s then\n%s\nelse\n%s" % (cond, ind(thn), ind(els)))
         # both branches fall through: join on the assigned variables (and the reader position)
         nb, ne = self.assigned(list(s.body), c), self.assigned(list(s.orelse), c)
         # a name bound in one branch only and unknown before is local to that branch
@@ -1384,6 +1395,7 @@ class Translator:
                     dl = str(d.value)
             params.append((a.arg, t, dl))
             env[a.arg] = t
+        env.update(getattr(self, "extra_env", {}))
         rt = ret if ret is not None else (ann_type(f.returns) if f.returns is not None else None)
         if rt is None:
             raise Untranslatable("%s: no return type" % name)
@@ -1733,4 +1745,27 @@ def translate_rows():
     out.append(tp.function("make_binary_resultrow", param_types=ptypes))
     out.append(tp.function("make_text_resultset_row", param_types=ptypes))
     out.append("end Mimic.Extracted.RowsCode")
+    return "\n".join(out) + "\n"
+
+
+# ----------------------------------------------------------------------------- connection.py: Connection.kill
+def translate_kill():
+    """→ Lean source of namespace Mimic.Extracted.KillCode: Connection.kill over the three fields it reads and writes;
+    `asyncio.current_task() is self._task` is the parameter `own_task`"""
+    from mysql_mimic import connection as Cn
+    from mysql_mimic.constants import KillKind
+    enums = {"KillKind": {nm: int(m.value) for nm, m in KillKind.__members__.items()}}
+    records = {"Task": [("cancel_requested", BOOL, None)],
+               "Connection": [("_task", T_opt(T_rec("Task")), None), ("_executing", BOOL, None), ("_kill", T_opt(NAT), None)]}
+    t = Translator(Cn, enums, records)
+    t.extra_env = {"own_task": BOOL}
+    out = ["-- GENERATED by harness/extract.py (harness/pytrans2.py) from /repo/mysql_mimic/connection.py — do not edit",
+           "import Mimic.Py", "namespace Mimic.Extracted.KillCode", "open Mimic.Py", "", "variable {S : Type}", ""]
+    out.append(t.record_decl("Task"))
+    out.append(t.record_decl("Connection"))
+    out.append(t.function("Connection.kill", "kill", self_type=T_rec("Connection"), param_types={"kind": NAT}, ret=("unit",), mutating=True,
+                          ).replace("(kind : Nat)", "(kind : Nat) (own_task : Bool)"))
+    out.append("def KILL_QUERY : Nat := %d" % int(KillKind.QUERY.value))
+    out.append("def KILL_CONNECTION : Nat := %d" % int(KillKind.CONNECTION.value))
+    out.append("end Mimic.Extracted.KillCode")
     return "\n".join(out) + "\n"
